@@ -320,7 +320,7 @@ pub fn replay(input: &str, output: &str) -> Value {
 				let mut boxes = q.clone();
 				boxes.push(TileBBox::new_full(1).unwrap());
 				boxes.push(TileBBox::new_empty(0).unwrap());
-				out.emit(&pyr_event(&pyr_from(&p), &pyr_from(&q), &[0, 1, 2, 31], &coords, &boxes));
+				out.emit(&pyr_event(&pyr_from(&p), &pyr_from(&q), &[0, 1, 2, 31, 32, 255], &coords, &boxes));
 				npy += 1;
 			}
 			k => panic!("unknown case kind {k}"),
@@ -470,7 +470,7 @@ pub fn record(output: &str, seed: u64, thorough: bool) -> Value {
 			let mk = |rng: &mut Rng| {
 				let mut v = vec![];
 				for _ in 0..rng.range(0, 4) {
-					let z = rng.range(0, 30) as u8;
+					let z = rng.range(0, 31) as u8;
 					v.push(rnd_box(rng, z));
 				}
 				pyr_from(&v)
@@ -496,7 +496,7 @@ pub fn record(output: &str, seed: u64, thorough: bool) -> Value {
 				.chain(std::iter::once((rng.range(0, 30) as u8, 0u32, 0u32)))
 				.collect();
 			let boxes: Vec<TileBBox> = q.level_bbox.iter().filter(|b| !b.is_empty()).cloned().collect();
-			out.emit(&pyr_event(&p, &q, &[0, rng.range(0, 31) as u8, 31], &coords, &boxes));
+			out.emit(&pyr_event(&p, &q, &[0, rng.range(0, 31) as u8, 31, 32, 255], &coords, &boxes));
 		}
 	}
 	let lines = out.finish();
